@@ -3,6 +3,7 @@ import ZvbiModel.Mux.Model
 import ZvbiModel.Mux.Spec
 import ZvbiModel.Mux.RawModel
 import ZvbiModel.Mux.RawSpec
+import ZvbiModel.Mux.CorRawModel
 namespace Zvbi.Driver.Mux
 open Zvbi.Driver Zvbi.Mux
 
@@ -157,8 +158,36 @@ def feedRaw (rm : RMux) (pts mask off spl s0 c0 s1 c1 seed : String) (il rnull :
         (some rm', s!"ok {bool o.ok} {o.calls.length} {sizes} {toHex o.bytes}")
   | _, _, _, _, _, _, _, _, _, _ => (some rm, "rej parse")
 
+/-- `corraw` argument list after the op name (round 5) -/
+def corRaw (rm : RMux) (pts mask bs off spl s0 c0 s1 c1 seed il rnull n : String) (rest : List String) :
+    Option RMux × String :=
+  match ptsArg pts, parseNat mask, csvNats bs, parseNat off, parseNat spl, parseNat s0, parseNat c0, parseNat s1 with
+  | some pts, some mask, some sizes, some off, some spl, some s0, some c0, some s1 =>
+    match parseNat c1, parseNat seed, parseNat il, parseNat rnull, linesArg n rest with
+    | some c1, some seed, some il, some rnull, some lines =>
+      if spl > 4096 ∨ c0 > 64 ∨ c1 > 64 ∨ off > 1000000 ∨ s0 > 1000000 ∨ s1 > 1000000 ∨ il > 1 ∨ rnull > 1 then
+        (some rm, "rej parse")
+      else
+        let sp : Sp := { offset := off, spl, start0 := s0, count0 := c0, start1 := s1, count1 := c1, interlaced := il == 1 }
+        let raw := if rnull = 1 then none else some (rawFrame seed ((c0 + c1) * spl))
+        let (rm', ok, calls, sl, idx, out, abort) :=
+          corAllR Zvbi.Gen.muxKeepsLastDuSize sizes lines (u32 mask) raw (some sp) pts 200000 rm 0 []
+        match abort with
+        | some e => (some rm', s!"rej model:{e.name}")
+        | none => (some rm', s!"ok {bool ok} {calls} {sl} {idx} {toHex out}")
+    | _, _, _, _, _ => (some rm, "rej parse")
+  | _, _, _, _, _, _, _, _ => (some rm, "rej parse")
+
 def step (st : Option RMux) (ws : List String) : Option RMux × String :=
   match ws with
+  | "corraw" :: args =>
+    match st with
+    | none => (st, "rej nomux")
+    | some rm =>
+      match args with
+      | pts :: mask :: bs :: off :: spl :: s0 :: c0 :: s1 :: c1 :: seed :: il :: rnull :: n :: rest =>
+        corRaw rm pts mask bs off spl s0 c0 s1 c1 seed il rnull n rest
+      | _ => (st, "rej parse")
   | "feedraw" :: args | "feedraw2" :: args =>
     match st with
     | none => (st, "rej nomux")
